@@ -82,6 +82,18 @@ var labelNames = [3]string{"L0", "L1", "L2"}
 
 // Listing drives the emitter, then checks WriteHexTo and WriteTextTo against the books.
 func Listing(prog int64, nops int, tbl int, withBase int, finalize int) {
+	listing(prog, nops, tbl, withBase, finalize, -1, 0)
+}
+
+// Pieces: the same, with the calls from index split on issued to a Clone that is appended back
+// before the listings are produced (a listing is a property of the call sequence, however it was
+// assembled), and - alias == 1 - with data blocks whose source is the front of the target buffer
+// itself (overlapping the place they are emitted to).
+func Pieces(prog int64, nops int, tbl int, withBase int, finalize int, split int, alias int) {
+	listing(prog, nops, tbl, withBase, finalize, split, alias)
+}
+
+func listing(prog int64, nops int, tbl int, withBase int, finalize int, split int, alias int) {
 	buf := vp.Bytes("buf", 160)
 	e := asm.NewEmitter(buf, true)
 	e.AssumeSEP(0x30)
@@ -93,12 +105,13 @@ func Listing(prog int64, nops int, tbl int, withBase int, finalize int) {
 		e.SetBase(base)
 	}
 	baseShown := withBase == 0
+	cur, off0 := e, 0 // the emitter that receives the calls, and where its bytes will sit in the whole
 	note := func(kind, n int, text string) {
 		if !baseShown && kind != kLabel { // the base directive is written in front of the first listed line
-			items = append(items, item{kind: kBase, addr: e.PC()})
+			items = append(items, item{kind: kBase, addr: cur.PC()})
 			baseShown = true
 		}
-		items = append(items, item{kind: kind, addr: e.PC(), off: e.Len(), n: n, text: text})
+		items = append(items, item{kind: kind, addr: cur.PC(), off: off0 + cur.Len(), n: n, text: text})
 	}
 	nLabels := 0
 	refL0 := false
@@ -107,41 +120,45 @@ func Listing(prog int64, nops int, tbl int, withBase int, finalize int) {
 		op := int(p & 15)
 		p >>= 4
 		tag := string(rune('a' + i))
+		if i == split {
+			off0 = e.Len()
+			cur = e.Clone(vp.Bytes("piece", 160))
+		}
 		switch {
 		case op == 1:
 			note(kIns, 1, "")
-			e.NOP()
+			cur.NOP()
 		case op == 2:
 			note(kIns, 2, "")
-			e.LDA_imm8_b(vp.U8("imm" + tag))
+			cur.LDA_imm8_b(vp.U8("imm" + tag))
 		case op == 3:
 			note(kIns, 3, "")
-			e.LDA_abs(vp.U16("abs" + tag))
+			cur.LDA_abs(vp.U16("abs" + tag))
 		case op == 4:
 			note(kIns, 4, "")
-			e.LDA_long(vp.U32("long" + tag))
+			cur.LDA_long(vp.U32("long" + tag))
 		case op == 5:
 			if nLabels < 3 {
 				note(kLabel, 0, labelNames[nLabels])
-				e.Label(labelNames[nLabels])
+				cur.Label(labelNames[nLabels])
 				nLabels++
 			}
 		case op == 6:
 			note(kIns, 2, "")
-			e.BNE("L0")
+			cur.BNE("L0")
 			refL0 = true
 		case op == 7:
 			note(kIns, 3, "")
-			e.JMP_abs("L0")
+			cur.JMP_abs("L0")
 			refL0 = true
 		case op >= 8 && op <= 11:
 			t := commentText(CommentLens[tbl][op-8])
 			note(kComment, 0, t)
-			e.Comment(t)
+			cur.Comment(t)
 		case op >= 12:
 			n := DataLens[tbl][op-12]
 			// a data block is listed in lines of at most 16 bytes
-			addr, off := e.PC(), e.Len()
+			addr, off := cur.PC(), off0+cur.Len()
 			if !baseShown { // an (even empty) data block is an emission: the pending base directive is listed
 				items = append(items, item{kind: kBase, addr: addr})
 				baseShown = true
@@ -153,8 +170,15 @@ func Listing(prog int64, nops int, tbl int, withBase int, finalize int) {
 				}
 				items = append(items, item{kind: kData, addr: addr + uint32(k), off: off + k, n: m})
 			}
-			e.EmitBytes(vp.Bytes("data"+tag, n))
+			if alias == 1 {
+				cur.EmitBytes(buf[:n])
+			} else {
+				cur.EmitBytes(vp.Bytes("data"+tag, n))
+			}
 		}
+	}
+	if cur != e {
+		e.Append(cur)
 	}
 	if finalize == 1 {
 		if refL0 && nLabels == 0 {
